@@ -470,12 +470,150 @@ func c15Faulty(w *core.W, s c15Stream, zone model.Name, comp uint64, tsig bool, 
 	}
 }
 
+// c15Datagram: an IXFR answered over a datagram connection the caller supplied (RFC 1995 s.2: a single
+// packet when it fits). The answer is larger than 512 octets and smaller than the 64 KiB a datagram
+// can carry; every record arrives.
+func c15Datagram(w *core.W, g *model.Gen, zone model.Name, j int) {
+	// one difference sequence: new SOA, old SOA, deletions, new SOA, additions, new SOA
+	recs := []*model.Rec{soaRec(zone, 10), soaRec(zone, 9)}
+	recs = append(recs, zoneRecs(g, zone, 2)...)
+	recs = append(recs, soaRec(zone, 10))
+	recs = append(recs, zoneRecs(g, zone, 3)...)
+	recs = append(recs, soaRec(zone, 10))
+	for len((&model.Msg{An: recs}).Wire()) < 700+(j%5)*400 {
+		recs = append(recs[:len(recs)-1], append(zoneRecs(g, zone, 4), soaRec(zone, 10))...)
+	}
+	q := new(dns.Msg)
+	q.SetIxfr(zone.Pres(), 9, "ns.example.", "h.example.")
+	q.Id = uint16(7000 + j)
+	ans := &model.Msg{ID: q.Id, Bits: 0x8400, Q: []model.Question{{Name: zone, Type: 251, Class: 1}}, An: recs}
+	wire := ans.Wire()
+	if len(wire) > 60000 {
+		return
+	}
+	sc := netsim.NewScripted([][]byte{wire})
+	tr := &dns.Transfer{Conn: &dns.Conn{Conn: sc}, ReadTimeout: 500 * time.Millisecond}
+	w.Eval(1)
+	w.Count("datagram_transfers", 1)
+	wit := map[string]any{"answer_octets": len(wire), "records": len(recs)}
+	ch, err := tr.In(q, "sim")
+	if err != nil {
+		w.Violation("C15/datagram-transfer/start", fmt.Sprintf("%v", err), wit)
+		return
+	}
+	var got [][]byte
+	var terr error
+	done := make(chan struct{})
+	go func() {
+		defer close(done)
+		for env := range ch {
+			if env.Error != nil && terr == nil {
+				terr = env.Error
+			}
+			for _, rr := range env.RR {
+				b, _ := packRR(rr)
+				got = append(got, b)
+			}
+		}
+	}()
+	select {
+	case <-done:
+	case <-time.After(c13Watch):
+		w.Violation("C15/datagram-transfer/does-not-end", "an IXFR answered in one datagram does not end", wit)
+		return
+	}
+	if terr != nil {
+		w.Violation("C15/datagram-transfer/error", fmt.Sprintf("an IXFR answer of %d octets in one datagram: %v", len(wire), terr), wit)
+		return
+	}
+	if i, ok := sameWires(got, wiresOf(recs)); !ok {
+		w.Violation("C15/datagram-transfer/records-differ", fmt.Sprintf("delivered %d records, transmitted %d; first difference at %d", len(got), len(recs), i), wit)
+	}
+}
+
+// c15Paced: a primary that sends one envelope every 30 ms for longer than the transfer's ReadTimeout
+// in total. The timeout bounds the wait for the next envelope, not the transfer: no error. (Decided
+// on wall-clock pacing, so a failure only counts when it repeats and the sender's own gaps - which it
+// measures - stayed far below the timeout; anything else is inconclusive.)
+func c15Paced(w *core.W, g *model.Gen, zone model.Name, j int, ixfr bool) {
+	const timeout = 1200 * time.Millisecond
+	const gap = 30 * time.Millisecond
+	var recs []*model.Rec
+	if ixfr {
+		recs = []*model.Rec{soaRec(zone, 10), soaRec(zone, 9)}
+		recs = append(recs, zoneRecs(g, zone, 20)...)
+		recs = append(recs, soaRec(zone, 10))
+		recs = append(recs, zoneRecs(g, zone, 28)...)
+		recs = append(recs, soaRec(zone, 10))
+	} else {
+		recs = append([]*model.Rec{soaRec(zone, 10)}, zoneRecs(g, zone, 50)...)
+		recs = append(recs, soaRec(zone, 10))
+	}
+	kind := map[bool]string{true: "ixfr", false: "axfr"}[ixfr]
+	failures := 0
+	for attempt := 0; attempt < 2; attempt++ {
+		cl, sv := netsim.StreamPair()
+		tr := &dns.Transfer{Conn: &dns.Conn{Conn: cl}, ReadTimeout: timeout}
+		q := new(dns.Msg)
+		if ixfr {
+			q.SetIxfr(zone.Pres(), 9, "ns.example.", "h.example.")
+		} else {
+			q.SetAxfr(zone.Pres())
+		}
+		q.Id = uint16(9000 + j)
+		ch, err := tr.In(q, "sim")
+		if err != nil {
+			w.Inconclusive("c15-paced-start:" + err.Error())
+			return
+		}
+		var maxGap time.Duration
+		go func() {
+			last := time.Now()
+			for _, r := range recs {
+				m := &model.Msg{ID: q.Id, Bits: 0x8400, Q: []model.Question{{Name: zone, Type: q.Question[0].Qtype, Class: 1}}, An: []*model.Rec{r}}
+				time.Sleep(gap)
+				sv.Write(frame(m.Wire()))
+				if d := time.Since(last); d > maxGap {
+					maxGap = d
+				}
+				last = time.Now()
+			}
+		}()
+		n := 0
+		var terr error
+		for env := range ch {
+			if env.Error != nil && terr == nil {
+				terr = env.Error
+			}
+			n += len(env.RR)
+		}
+		sv.Close()
+		w.Eval(1)
+		w.Count("paced_transfers", 1)
+		if terr == nil && n == len(recs) {
+			return
+		}
+		if maxGap > timeout/3 {
+			w.Inconclusive("c15-paced-sender-was-slow")
+			return
+		}
+		failures++
+		if failures == 2 {
+			w.Violation("C15/paced-transfer-fails/"+kind, fmt.Sprintf("%d envelopes sent %v apart (largest gap %v) with ReadTimeout %v: %d of %d records, error %v", len(recs), gap, maxGap, timeout, n, len(recs), terr), map[string]any{"kind": kind})
+		}
+	}
+}
+
 func c15Case(w *core.W, j int) {
 	g := model.NewGen(w.Rng(j))
 	g.NoHuge = true
 	g.MaxOpaque = 40
 	g.Plain = j%2 == 0
 	zone := model.Name{[]byte("zone"), []byte("example")}
+	c15Datagram(w, g, zone, j)
+	if j%16 == 5 {
+		c15Paced(w, g, zone, j, j%32 == 5)
+	}
 	s := c15MakeStream(g, zone, j%4)
 	n := len(s.recs)
 	tsig := j%3 == 0
